@@ -837,6 +837,14 @@ fn corpus(w: &mut CasesWriter) {
         &[(SIGINT, D), (SIGQUIT, D), (SIGTERM, D)],
         &[Op::EnableTerm, Op::EnterSubshell(true, false), Op::SetAction(SIGINT, c1, 1, false), Op::SetAction(SIGINT, c1, 2, true)],
     );
+    // replay of the defect repaired by /repo b8d5cfe: a read-only look at the
+    // trap, then an asynchronous subshell: its trap command must be accepted
+    run_fixed(
+        w,
+        "corpus",
+        &[(SIGINT, D), (SIGQUIT, D)],
+        &[Op::Peek(SIGINT), Op::EnterSubshell(true, false), Op::SetAction(SIGINT, c1, 1, false), Op::SetAction(SIGQUIT, c1, 2, false)],
+    );
     // trap replaced while a delivery is waiting
     // (known finding F21: the minimal replay, kept so that every run reports it)
     run_fixed(
@@ -889,6 +897,9 @@ mod script {
             "QUIT" => SIGQUIT,
             "KILL" => SIGKILL,
             "STOP" => SIGSTOP,
+            "TSTP" => SIGTSTP,
+            "TTIN" => SIGTTIN,
+            "TTOU" => SIGTTOU,
             n => number_of(n),
         }
     }
@@ -1557,7 +1568,7 @@ mod builtin_stream {
     use yash_env::builtin::{Builtin, Type};
     use yash_env::semantics::{ExitStatus, Field};
     use yash_env::system::{GetPid as _, SendSignal as _};
-    use yv_harness::vsh::{BuiltinFuture, RunOpts, run_shell};
+    use yv_harness::vsh::BuiltinFuture;
 
     #[derive(Default)]
     struct Ctx {
@@ -1568,6 +1579,7 @@ mod builtin_stream {
         hits: Vec<u32>,
         /// per `raise_safe`: was the signal sent?
         sent: Vec<bool>,
+        interactive: bool,
     }
     thread_local! {
         static CTX: RefCell<Ctx> = RefCell::new(Ctx::default());
@@ -1600,7 +1612,10 @@ mod builtin_stream {
                 let state = CTX.with(|c| c.borrow().state.clone().expect("state"));
                 let st = state.borrow();
                 st.processes[&env.main_pid].disposition(number(sg)) != Disposition::Default
-            } && sg != SIGKILL && sg != SIGSTOP;
+            } && sg != SIGKILL
+                && sg != SIGSTOP
+                // an interactive shell turns SIGINT into an interrupt of the command
+                && !(sg == SIGINT && CTX.with(|c| c.borrow().interactive));
             CTX.with(|c| c.borrow_mut().sent.push(safe));
             if safe {
                 let pid = env.system.getpid();
@@ -1617,7 +1632,10 @@ mod builtin_stream {
         Deliver(i32),
     }
 
-    const NAMES: [(i32, &str); 9] = [
+    const NAMES: [(i32, &str); 12] = [
+        (120, "TSTP"),
+        (121, "TTIN"),
+        (122, "TTOU"),
         (0, "EXIT"),
         (1, "HUP"),
         (2, "INT"),
@@ -1654,33 +1672,92 @@ mod builtin_stream {
         }
     }
 
-    pub fn emit(w: &mut CasesWriter, stream: &str, univ: &[(i32, Disposition)], steps: &[Step]) {
-        let text: String = steps.iter().map(|s| format!("{}; obs\n", step_text(s))).collect();
-        CTX.with(|c| {
-            *c.borrow_mut() = Ctx { univ: univ.to_vec(), ..Default::default() };
-        });
-        let u = univ.to_vec();
-        let (o, _) = script::with_watchdog(&text, 60, || {
-            run_shell(
-                RunOpts { argv: vec!["-c".into(), text.clone()], ..Default::default() },
-                move |env, state| {
+    /// `vsh::run_shell` with the initial dispositions installed on the process
+    /// before `configure_environment` (an interactive shell sets its internal
+    /// dispositions there).
+    fn run_shell_with_initial(
+        argv: Vec<String>,
+        univ: Vec<(i32, Disposition)>,
+    ) -> yv_harness::vsh::Outcome {
+        use std::ops::ControlFlow::{Break, Continue};
+        use yash_env::semantics::Divert;
+        yv_harness::vsh::trace_take();
+        let r = std::panic::catch_unwind(std::panic::AssertUnwindSafe(move || {
+            let (res, deadlock, timeout, _state) = vsh::drive(
+                move |mut env: VEnv, state: State| async move {
                     {
-                        // the shell was started with these signals ignored
                         let mut st = state.borrow_mut();
                         let proc = st.processes.get_mut(&env.main_pid).unwrap();
-                        for (c, d) in &u {
+                        for (c, d) in &univ {
                             if *c != 0 && *d != Disposition::Default {
                                 proc.set_disposition(number(*c), *d);
                             }
                         }
                     }
-                    CTX.with(|c| c.borrow_mut().state = Some(Rc::clone(state)));
+                    CTX.with(|c| c.borrow_mut().state = Some(Rc::clone(&state)));
+                    let mut args = vec!["yash".to_string()];
+                    args.extend(argv);
+                    let run = match yash_cli::startup::args::parse(args) {
+                        Ok(yash_cli::startup::args::Parse::Run(run)) => run,
+                        _ => return 2,
+                    };
+                    let work = yash_cli::startup::configure_environment(&mut env, run).await;
+                    vsh::install_probes(&mut env);
                     env.builtins.insert("hit", Builtin::new(Type::Mandatory, hit_main));
                     env.builtins.insert("obs", Builtin::new(Type::Mandatory, obs_main));
                     env.builtins.insert("raise_safe", Builtin::new(Type::Mandatory, raise_safe_main));
+                    let ref_env = RefCell::new(&mut env);
+                    let lexer = match yash_cli::startup::input::prepare_input(&ref_env, &work.source).await {
+                        Ok(lexer) => lexer,
+                        Err(_) => return 127,
+                    };
+                    let result = yash_semantics::read_eval_loop(&ref_env, &mut { lexer }).await;
+                    let env = ref_env.into_inner();
+                    env.apply_result(result);
+                    match result {
+                        Continue(())
+                        | Break(Divert::Continue { .. })
+                        | Break(Divert::Break { .. })
+                        | Break(Divert::Return(_))
+                        | Break(Divert::Interrupt(_))
+                        | Break(Divert::Exit(_)) => yash_semantics::trap::run_exit_trap(env).await,
+                        Break(Divert::Abort(_)) => (),
+                    }
+                    env.exit_status.0
                 },
-            )
+                100_000,
+            );
+            (res, deadlock, timeout)
+        }));
+        match r {
+            Ok((res, deadlock, timeout)) => yv_harness::vsh::Outcome {
+                status: res.unwrap_or(-1),
+                deadlock,
+                timeout,
+                ..Default::default()
+            },
+            Err(_) => yv_harness::vsh::Outcome {
+                panicked: Some("panic".into()),
+                status: -2,
+                ..Default::default()
+            },
+        }
+    }
+
+    pub fn emit(w: &mut CasesWriter, stream: &str, interactive: bool, univ: &[(i32, Disposition)], steps: &[Step]) {
+        let text: String = steps.iter().map(|s| format!("{}; obs\n", step_text(s))).collect();
+        CTX.with(|c| {
+            *c.borrow_mut() = Ctx { univ: univ.to_vec(), ..Default::default() };
         });
+        CTX.with(|c| c.borrow_mut().interactive = interactive);
+        let u = univ.to_vec();
+        let mut argv: Vec<String> = vec![];
+        if interactive {
+            argv.push("-i".into());
+        }
+        argv.push("-c".into());
+        argv.push(text.clone());
+        let o = script::with_watchdog(&text, 60, || run_shell_with_initial(argv, u));
         let ctx = CTX.with(|c| std::mem::take(&mut *c.borrow_mut()));
         w.count(&format!("stream:{stream}"));
         let mut terms = vec![];
@@ -1717,11 +1794,19 @@ mod builtin_stream {
         if o.panicked.is_some() || o.timeout {
             complete = false;
         }
-        let term = format!("(CBuiltin {} {} {})", univ_coq(univ), coq::list(&terms), coq::b(complete));
+        let term = format!(
+            "(CBuiltin {} {} {} {})",
+            coq::b(interactive),
+            univ_coq(univ),
+            coq::list(&terms),
+            coq::b(complete)
+        );
+        w.count(if interactive { "builtin:interactive" } else { "builtin:non-interactive" });
         let init: Vec<String> = univ.iter().map(|(c, d)| format!("{}:{}", sig_name(*c), d_show(*d))).collect();
         let json = format!(
-            "{{\"stream\":{},\"initial\":{},\"script\":{},\"steps\":[{}],\"complete\":{}}}",
+            "{{\"stream\":{},\"interactive\":{},\"initial\":{},\"script\":{},\"steps\":[{}],\"complete\":{}}}",
             json_str(stream),
+            interactive,
             json_str(&init.join(" ")),
             json_str(&text),
             shown.iter().map(|x| json_str(x)).collect::<Vec<_>>().join(","),
@@ -1741,6 +1826,7 @@ mod builtin_stream {
         emit(
             w,
             "builtin-corpus",
+            false,
             &univ,
             &[
                 Step::Trap(vec![n(2), n(15), n(3)], c1, None),
@@ -1757,6 +1843,7 @@ mod builtin_stream {
         emit(
             w,
             "builtin-corpus",
+            false,
             &univ,
             &[
                 Step::Trap(vec![n(1), n(9), n(125), n(0)], c1, None),
@@ -1770,10 +1857,34 @@ mod builtin_stream {
         );
     }
 
+    /// an interactive shell entered with INT and TSTP ignored traps them all the same
+    pub fn corpus_interactive(w: &mut CasesWriter) {
+        use Disposition::{Default as D, Ignore as I};
+        let n = |c| cond(c, false);
+        let univ = [(2, I), (3, D), (15, D), (120, I), (121, D), (122, D), (124, I)];
+        emit(
+            w,
+            "builtin-corpus",
+            true,
+            &univ,
+            &[
+                Step::Trap(vec![n(2), n(15), n(124)], Act::Command(1), None),
+                Step::Deliver(15),
+                Step::Deliver(124),
+                Step::Trap(vec![n(120), n(3)], Act::Command(2), None),
+                Step::Deliver(120),
+                Step::Trap(vec![n(2), n(15), n(120)], Act::Default, None),
+                Step::Deliver(15),
+                Step::Trap(vec![n(3), n(124)], Act::Ignore, None),
+            ],
+        );
+    }
+
     pub fn random(w: &mut CasesWriter, r: &mut Rng) {
+        let interactive = r.chance(1, 3);
         let pool = [0, 1, 2, 3, 9, 15, 116, 124, 125];
-        let mut conds: Vec<i32> = vec![];
-        let n = 3 + r.below(5);
+        let mut conds: Vec<i32> = if interactive { vec![2, 3, 15, 120, 121, 122] } else { vec![] };
+        let n = conds.len() + 2 + r.below(4);
         while conds.len() < n {
             let c = *r.pick(&pool);
             if !conds.contains(&c) {
@@ -1805,7 +1916,7 @@ mod builtin_stream {
                 }
             }
         }
-        emit(w, "builtin-random", &univ, &steps);
+        emit(w, "builtin-random", interactive, &univ, &steps);
     }
 }
 
@@ -1860,6 +1971,7 @@ fn main() {
 
     // stream C: the trap built-in with several conditions
     builtin_stream::corpus(&mut w);
+    builtin_stream::corpus_interactive(&mut w);
     let n = args.scale(300, 4000);
     for k in 0..n {
         let mut r = rng.fork(2_000_000 + k as u64);
